@@ -7,7 +7,7 @@ PROP = {
                    "a wrong one and under every single-byte corruption of each act; every act and every header/body ciphertext "
                    "byte of up to ~3200 messages (sizes 0..65535, >=3 key rotations per direction in the long sessions, "
                    "rotation-straddling counts) must equal the reference ciphertext; short writes + Flush retries must put the "
-                   "reference bytes on the wire exactly once; the reader must return the plaintexts in order; flip / truncate / "
+                   "reference bytes on the wire exactly once, also when a second connection of the same process (own keys; brontide's pooled write buffers are process-wide) writes, flushes and reads back messages between two Flush attempts of a partially written header or body; the reader must return the plaintexts in order; flip / truncate / "
                    "replay / reorder / reflect / splice forks (receiver state snapshotted) must fail without data."),
     "level_note": ("Sampled sessions, not exhaustive. Faults are write-side short writes with a timeout error (the case lnd "
                    "documents as resumable); read-side timeouts are not resumable in lnd and are not injected. The real "
@@ -29,12 +29,14 @@ PROP = {
                              "delivery_evals": 140000, "nonce_reuse_evals": 280000, "tamper_evals": 14000,
                              "handshakes_completed": 150, "handshake_corruption_evals": 5000,
                              "handshake_wrong_key_evals": 300, "rotations": 250, "short_writes": 400000,
+                             "bystander_messages": 220000, "bystander_inside_partial_header": 60000,
                              },
                    "thorough": {"messages": 20000000, "ciphertext_reference_evals": 20000000,
                                 "stream_identity_evals": 20000000, "delivery_evals": 20000000,
                                 "nonce_reuse_evals": 40000000, "tamper_evals": 2000000,
                                 "handshakes_completed": 22000, "handshake_corruption_evals": 2500000,
-                                "handshake_wrong_key_evals": 45000, "rotations": 40000, "short_writes": 60000000}},
+                                "handshake_wrong_key_evals": 45000, "rotations": 40000, "short_writes": 60000000,
+                                "bystander_messages": 13000000, "bystander_inside_partial_header": 3600000}},
     }, {
         "name": "transport_race", "pkg": "brontide", "test": "TestVerifC11Race",
         "files": ["brontide/c11_test.go"],
